@@ -117,7 +117,7 @@ def pool(contract, seed=0, limit=4000):
                     continue
         yield from cap(gen_fe())
         return
-    if cls_name == "Element" and meth in ("validators", "type_validator", "__items__", "__properties__"):
+    if cls_name == "Element" and meth in ("validators", "type_validator", "__items__", "__properties__", "annotation") and (contract.inst or meth != "annotation"):
         yield from cap((fn, (mk(),)) for mk in instances_of(contract.inst or "Element"))
         return
     if cls_name in ("String", "Integer", "Number", "Boolean", "Null", "Array", "Nothing") and meth in ("type_validator", "validators"):
@@ -192,10 +192,13 @@ def pool(contract, seed=0, limit=4000):
             yield Property(String())
             yield Property(String(), source="")
             yield Property(String(), required=True, source="x")
+            from statham.schema.elements import Array, Element, Integer
+            for el in (String(default=""), Integer(default=0), Element(default=None), Array(String(), default=[]), Element(default=False)):
+                yield Property(el)
         if meth == "bind":
             from statham.schema.elements import Element
             yield from cap((fn, (p.clone(), nm, par)) for p in props() for nm in ("a", "", None) for par in (None, Element()))
-        elif meth in ("clone",):
+        elif meth in ("clone", "annotation"):
             yield from cap((fn, (p,)) for p in props())
         elif meth == "evolve":
             yield from cap((fn, (p, nm)) for p in props() for nm in ("a", "b[0]", ""))
@@ -242,6 +245,11 @@ def pool(contract, seed=0, limit=4000):
             docs += [{kw: {}}, {"type": "string", kw: {}}, {"contains": {kw: {}}}, {"propertyNames": {kw: True}}, {"additionalProperties": {kw: {}}},
                      {"items": [{}], "additionalItems": {kw: {}}}]
         yield from cap((fn, (copy.deepcopy(d), None)) for d in docs)
+        return
+    if cls_name == "ObjectMeta" and meth == "annotation":
+        from statham.schema.elements import Object
+        from statham.schema.elements.meta import ObjectMeta
+        yield from cap((fn, (c,)) for c in [Object, Object.inline("A"), Object.inline("class_", properties={})])
         return
     # generic: by parameter names
     try:
